@@ -70,6 +70,11 @@ def _one(prop, tier):
                     if p.get("id") == prop:
                         files = p.get("anchors", {}).get("files", [])
         if files:
+            # the anchored files and their siblings (same directory): a change aimed at the property lands next to its anchors
+            dirs = {os.path.dirname(x) for x in files if os.path.dirname(x) != "strawberryfields"}
+            sib = sorted({"strawberryfields/" + rel for rel in ctx.tree.modules
+                          if os.path.dirname("strawberryfields/" + rel) in dirs and not rel.startswith("backends/tfbackend")})
+            files = sorted(set(files) | set(sib))
             param_used(ctx, f"{prop}.param-used", files)
             from .rules.common_pitfalls import pitfalls
             pitfalls(ctx, f"{prop}.pitfalls", files)
